@@ -1,6 +1,6 @@
 (* C02 — no access outside the allocated block while within declared capacity. *)
 From Coq Require Import ZArith List Bool.
-From Cntgs Require Import Base Layout Mem Vector Spec Rep EsizeThm C02Thm.
+From Cntgs Require Import Base Layout Mem Vector Spec Rep EsizeThm C02Thm NeededThm.
 Import ListNotations.
 Local Open Scope Z_scope.
 
@@ -23,11 +23,40 @@ Theorem C02_elements_inside_data : forall L v l, wf_plist L = true -> Rep L v l 
 Proof. exact elements_inside_data. Qed.
 Print Assumptions C02_elements_inside_data.
 
+(* (a) arithmetic sufficiency, worst-case formula, lists WITH VaryingSize parameters: N
+   elements stored one after the other as emplace_back does (fill), whose varying payload
+   adds up to at most B bytes, end inside the block of
+   SA * units (needed N B (esize L fixed)) bytes - for every well-formed list whose tail is
+   benign (tail_ok: the last parameter is a VaryingSize one, or a parameter with the storage
+   alignment follows the last VaryingSize one, or there is no VaryingSize parameter), every
+   N, every B, every fixed sizes and every choice of the varying counts. *)
+Theorem C02_varying_capacity_sufficient : forall L fixed cs B,
+  wf_plist L = true -> tail_ok (SA L) true L = true ->
+  Forall (cnts_fit L (fixed_counts L fixed)) cs -> payload L cs <= B -> 0 <= B ->
+  0 <= fill L cs 0 <= SA L * units L (needed (Z.of_nat (length cs)) B (esize L fixed)).
+Proof. exact needed_sufficient_block. Qed.
+Print Assumptions C02_varying_capacity_sufficient.
+
+(* the lists people write most: the last parameter is a VaryingSize one *)
+Theorem C02_last_varying_is_benign : forall S0 L b, L <> [] ->
+  is_varying (last L {| pk := Plain; psz := 1; pal := 1; pty := TBlob |}) = true ->
+  tail_ok S0 b L = true.
+Proof. intros S0 L b. exact (tail_ok_last_varying S0 L b). Qed.
+Print Assumptions C02_last_varying_is_benign.
+
+(* one element of ANY well-formed list (benign tail or not) stored at a storage-aligned
+   address ends inside size + payload bytes: a vector constructed for one element holds it *)
+Theorem C02_single_element_fits : forall L fixed cnts a,
+  wf_plist L = true -> cnts_fit L (fixed_counts L fixed) cnts -> 0 <= a -> (SA L | a) ->
+  snd (place L cnts a) - a <= fst (esize L fixed) + vbytes L cnts.
+Proof. intros L fixed cnts a Hwf Hc Ha Hd. exact (proj1 (element_bound L fixed cnts a Hwf Hc Ha Hd)). Qed.
+Print Assumptions C02_single_element_fits.
+
 (* (a) is FALSE for lists with a plain/fixed parameter behind the last VaryingSize
    parameter: the faithful model overruns its block within the documented limits.  This is
    the recorded known finding "needed-tail-after-varying"; the witness replayed on the
-   implementation trips the allocator's guard zone (corpus/f7.script).  The full statement
-   for lists ending in a VaryingSize parameter is not proved (DESIGN.md section 5, C02). *)
+   implementation trips the allocator's guard zone (corpus/f7.script).  The witness list has
+   tail_ok = false (NeededThm.f7L_tail_not_ok): the two theorems meet at that predicate. *)
 Theorem C02_varying_capacity_refuted :
   exists L N B vcounts,
     wf_plist L = true /\ Z.of_nat (length vcounts) = N /\
